@@ -39,7 +39,7 @@ LEVEL_TEXT = ("Every value of the bounded value space and every self-referential
               "the real hy.as-model and hy.models._seen is read after every call. Exhaustive within the bounds.")
 RULE = ("values: enumerated by container kind, arity and pool, all distinct as specs; non-trivial = contains a container (the recursion guard is "
         "used). histories: BFS over (operand, probe fault set) sequences; state = canonical (labels of ids in hy.models._seen, faults spent) at call "
-        "boundaries and at every probe action; 'states' = distinct canonical states of the pruned state-graph search; non-trivial history = "
+        "boundaries and at every probe action; 'states' = the value cases plus the distinct canonical states of the pruned state-graph search; non-trivial history = "
         "contains at least one failing promotion followed by a later call")
 ASSUMPTIONS = [
     "value pools, container arities (<= 2; dict <= 1 pair in nestings) and nesting depth (2) as listed in bounds",
